@@ -57,6 +57,7 @@ fn main() {
             }
         },
         p => {
+            util::start_watchdog(&opts);
             if !monitors::run(p, &opts) {
                 eprintln!("unknown monitor {p}");
                 std::process::exit(2);
